@@ -80,18 +80,26 @@ class Q:
         self.d = _den_bits(v) if d is None else d
 
     def __add__(self, o: "Q") -> "Q":
+        if isinstance(o, SQ):
+            return SQ(_sym(self) + o.v)
         return Q(self.v + o.v, self.m + o.m, max(self.d, o.d))
 
     def __sub__(self, o: "Q") -> "Q":
+        if isinstance(o, SQ):
+            return SQ(_sym(self) - o.v)
         return Q(self.v - o.v, self.m + o.m, max(self.d, o.d))
 
     def __mul__(self, o: "Q") -> "Q":
+        if isinstance(o, SQ):
+            return SQ(_sym(self) * o.v)
         return Q(self.v * o.v, self.m * o.m, min(INF_BITS, self.d + o.d))
 
     def __neg__(self) -> "Q":
         return Q(-self.v, self.m, self.d)
 
     def __truediv__(self, o: "Q") -> "Q":
+        if isinstance(o, SQ):
+            return SQ(_sym(self) / o.v)
         if o.v == 0:
             raise Undefined("division by zero")
         b = abs(o.v)
@@ -107,6 +115,40 @@ class Q:
     def exact_expected(self) -> bool:
         """Every partial result of the float computation is exactly representable."""
         return self.d < INF_BITS and self.m * (1 << self.d) < (1 << 52)
+
+
+def _sym(q):
+    """Exact sympy value of a Q / SQ."""
+    import sympy
+
+    return q.v if isinstance(q, SQ) else sympy.Rational(q.v.numerator, q.v.denominator)
+
+
+class SQ:
+    """Symbolic twin of Q (sympy expression in the input symbols): the symbolic stream evaluates the
+    oracle once for all points."""
+
+    __slots__ = ("v", "m", "d")
+
+    def __init__(self, v) -> None:
+        self.v = v
+        self.m = ZERO
+        self.d = 0
+
+    def __add__(self, o):
+        return SQ(self.v + _sym(o))
+
+    def __sub__(self, o):
+        return SQ(self.v - _sym(o))
+
+    def __mul__(self, o):
+        return SQ(self.v * _sym(o))
+
+    def __truediv__(self, o):
+        return SQ(self.v / _sym(o))
+
+    def __neg__(self):
+        return SQ(-self.v)
 
 
 def qc(x: Any) -> Q:
@@ -383,6 +425,8 @@ class Oracle:
             a, b = self._bcast(self.ev(node["a"], x), self.ev(node["b"], x))
             if op == "div":
                 for d in b:
+                    if isinstance(d.v, SQ):
+                        continue
                     if self.min_divisor is None or abs(d.v.v) < self.min_divisor:
                         self.min_divisor = abs(d.v.v)
             f = {"add": d_add, "sub": d_sub, "mul": d_mul, "div": d_div}[op]
@@ -598,34 +642,48 @@ class PolyLeaf:
         self.guard = guard
 
     def _eval(self, x) -> tuple[list[Fraction], list[list[Fraction]]]:
-        xs = [F(t) for t in np.asarray(x, dtype=float).ravel()]
+        if getattr(x, "dtype", None) == object:
+            import sympy
+
+            xs = list(np.asarray(x).ravel())
+            conv = lambda c: sympy.Rational(c.numerator, c.denominator)  # noqa: E731
+        else:
+            xs = [F(t) for t in np.asarray(x, dtype=float).ravel()]
+            conv = lambda c: c  # noqa: E731
+        return self._eval_generic(xs, conv)
+
+    def _eval_generic(self, xs, conv):
         vals, jac = [], []
         for p in self.polys:
             v = ZERO
             g = [ZERO] * len(xs)
             for c, e in p:
-                t = c
+                t = conv(c)
                 for j, ej in enumerate(e):
-                    t *= xs[j] ** ej
-                v += t
+                    t = t * xs[j] ** ej
+                v = v + t
                 for j, ej in enumerate(e):
                     if ej:
-                        t = c * ej
+                        t = conv(c) * ej
                         for k, ek in enumerate(e):
-                            t *= xs[k] ** (ek - (1 if k == j else 0))
-                        g[j] += t
+                            t = t * xs[k] ** (ek - (1 if k == j else 0))
+                        g[j] = g[j] + t
             vals.append(v)
             jac.append(g)
         return vals, jac
 
     def func(self, x):
         vals, _ = self._eval(x)
+        if getattr(x, "dtype", None) == object:
+            return vals[0] if self.style == "s" else np.array(vals, dtype=object)
         if self.style == "s":
             return float(vals[0])
         return self.guard.give(f"value returned by leaf {self.label}", np.array([float(v) for v in vals]))
 
     def jac(self, x):
         _, jac = self._eval(x)
+        if getattr(x, "dtype", None) == object:
+            return np.array(jac[0], dtype=object) if self.style == "s" else np.array(jac, dtype=object)
         if self.style == "s":
             return self.guard.give(f"gradient returned by leaf {self.label}", np.array([float(c) for c in jac[0]]))
         return self.guard.give(f"Jacobian returned by leaf {self.label}", np.array([[float(c) for c in r] for r in jac]))
